@@ -7,14 +7,31 @@ want = set(base["stable_pass"])
 with tempfile.TemporaryDirectory() as td:
     x = os.path.join(td, "j.xml")
     env = dict(os.environ); env.pop("PYHF_VERIF", None); env["PYTHONPATH"] = os.path.join(repo, "src")
+    # BASELINE_XDIST=N: quick confirmation of scratch worktrees (pytest-xdist); anything missing under xdist is
+    # re-run serially below before it is reported, so parallel-only artefacts cannot produce a wrong verdict.
+    nx = os.environ.get("BASELINE_XDIST")
     p = subprocess.run(["/venv/bin/python", "-m", "pytest", "-ra", "-q", "-p", "no:cacheprovider", "--timeout=900",
-                        "--continue-on-collection-errors", f"--junitxml={x}"], cwd=repo, env=env,
+                        "--continue-on-collection-errors", f"--junitxml={x}"] + (["-n", nx] if nx else []), cwd=repo, env=env,
                        stdout=subprocess.PIPE, stderr=subprocess.STDOUT, text=True)
     passed = set()
     for tc in ET.parse(x).getroot().iter("testcase"):
         if not any(ch.tag in ("failure", "error", "skipped") for ch in tc):
             passed.add(f"{tc.get('classname')}::{tc.get('name')}")
 missing = sorted(want - passed)
+if missing and nx:
+    ids = []
+    for m in missing:
+        cls, name = m.split("::", 1)
+        ids.append(cls.replace(".", "/") + ".py::" + name)
+    with tempfile.TemporaryDirectory() as td:
+        x = os.path.join(td, "j.xml")
+        subprocess.run(["/venv/bin/python", "-m", "pytest", "-q", "-p", "no:cacheprovider", "--timeout=900",
+                        f"--junitxml={x}"] + ids, cwd=repo, env=env, stdout=subprocess.PIPE, stderr=subprocess.STDOUT)
+        for tc in ET.parse(x).getroot().iter("testcase"):
+            if not any(ch.tag in ("failure", "error", "skipped") for ch in tc):
+                passed.add(f"{tc.get('classname')}::{tc.get('name')}")
+    print(f"(xdist run missed {len(missing)}; re-ran them serially)")
+    missing = sorted(want - passed)
 print(p.stdout.strip().splitlines()[-1])
 print(f"baseline stable_pass: {len(want)}  passed now: {len(passed)}  missing: {len(missing)}")
 for m in missing[:40]:
